@@ -178,6 +178,7 @@ func (w *Worker) Open(ctx context.Context) (err error) {
 		})
 	}()
 
+	sourceOpened := false
 	for task := range w.FirstTask.Tasks() {
 		err = task.Open(ctx)
 		if err != nil {
@@ -187,6 +188,17 @@ func (w *Worker) Open(ctx context.Context) (err error) {
 		r.Append(func() error {
 			return task.Close(ctx)
 		})
+		if !sourceOpened {
+			// The first task is the source task (see NewWorker). Its Close is a
+			// no-op because the source is torn down by the worker, so the
+			// rollback has to do that too. Otherwise a later task or the DLQ
+			// failing to open leaves the source plugin open and running: the
+			// caller only closes workers that opened completely.
+			sourceOpened = true
+			r.Append(func() error {
+				return w.tearDownSource(ctx)
+			})
+		}
 	}
 
 	err = w.DLQ.Open(ctx)
